@@ -77,6 +77,8 @@ def check_step_property(case, steps, j, exp):
         if op['op'] == 'from_terms' and not (operand_spec(case, steps, op['a']) or {'Xs': [{'c': 1}]})['Xs'][0]['c']:
             return None
         return ('raises-' + r['status'], 'valid operation raised %s: %s' % (r['status'], r.get('msg', '')))
+    if r.get('index_unchanged') is False:
+        return ('mutates-index-argument', 'the index expression object was changed in place')
     if r.get('operands_unchanged') is False:
         return ('mutates-operand', 'the operation changed one of its operands in place')
     if 'dense' not in r:
@@ -251,6 +253,7 @@ def run(ctx):
     sections = [('sequences', run_sequences(ctx, 2500 if thorough else 450)),
                 ('index expressions', NUM.run_index_cases(ctx, 4000 if thorough else 600)),
                 ('generator', NUM.run_generator_cases(ctx, 1500 if thorough else 300)),
+                ('generator histories', NUM.run_genhist_cases(ctx, 300 if thorough else 60)),
                 ('free functions', NUM.run_modek_cases(ctx, 480 if thorough else 120)),
                 ('operators', NUM.run_canop_cases(ctx, 600 if thorough else 120)),
                 ('cython updates', NUM.run_update_cases(ctx, 400 if thorough else 80)),
